@@ -32,6 +32,15 @@ def build(ops_abs, mode="v0"):
             exp.append(("err", last, ref))
             continue
         t, tr = a
+        if t == "X":
+            # an I picture whose header parses and whose first macroblock carries the forbidden INTRADC 128:
+            # rejected after the header has been accepted; nothing may change
+            b = picgen.Bits()
+            b.extend(picgen.header_bits(mode, "I", tr, W, H, Q))
+            b.code("1").code("0011").put(128, 8).put(0, 32)
+            ops.append(D(b.to_bytes()))
+            exp.append(("err", last, ref))
+            continue
         if t == "I":
             v = 21 + 12 * k
             b = picgen.flat_picture(mode, "I", W, H, tr, v, quant=Q)
@@ -85,12 +94,12 @@ def check_history(idx, abs_ops, exp, toks):
 
 
 def gen_abs(ctx, maxlen, nrandom, maxrand):
-    alpha = [(t, tr) for t in "IPD" for tr in (0, 1, 255)] + [("G",), ("C",)]
+    alpha = [(t, tr) for t in "IPD" for tr in (0, 1, 255)] + [("G",), ("C",), ("X", 1)]
     out = []
     for n in range(1, maxlen + 1):
         out += [list(x) for x in itertools.product(alpha, repeat=n)]
     rng = ctx.rng.fork("c04")
-    alpha2 = [(t, tr) for t in "IPPDD" for tr in (0, 1, 2, 254, 255)] + [("G",), ("C",)]
+    alpha2 = [(t, tr) for t in "IPPDD" for tr in (0, 1, 2, 254, 255)] + [("G",), ("C",), ("X", 0), ("X", 255)]
     for _ in range(nrandom):
         n = rng.range(maxlen + 1, maxrand)
         h = [rng.choice(alpha2) for _ in range(n)]
